@@ -103,6 +103,7 @@ def run(ctx):
     stats = collections.Counter()
     bad = None
     loaded = 0
+    distinct = set()
     for t, r in zip(texts, res):
         if r is None:
             stats["first-load-fails"] += 1
@@ -111,6 +112,8 @@ def run(ctx):
         for enc, v in r.items():
             k = "ok" if "ok" in v else ("skip" if "skip" in v else "BAD")
             stats[enc + ":" + k] += 1
+            if k == "ok":
+                distinct.add((t, enc))
             if "bad" in v and bad is None:
                 bad = {"what": "%s (encoder %s)" % (v["bad"], enc), "encoder": enc, "t0": v.get("t0"),
                        "t1": v.get("t1"), "t2": v.get("t2")}
@@ -120,7 +123,7 @@ def run(ctx):
         core.violation(ctx, "proof", {"what": "C07 proof obligations no longer check", "broken": lean["problems"]}, False)
     for f in [f for f in core.load_known()["findings"] if f["property"] == "C07"]:
         ctx.known_hits.append("%s %s" % (f["id"], f["what"]))
-    cov = {"evaluations": len(texts) * 4, "distinct_nontrivial": loaded * 4,
+    cov = {"evaluations": len(texts) * 4, "distinct_nontrivial": len(distinct),
            "rule": "texts: %d generated OMNI spellings, ISIS spellings, labels with missing values, fixed loader-only "
                    "cases (leap seconds, units on sequences, mixed-case keywords, folded strings), tests/data files and "
                    "cut variants; for each loadable text and each encoder that accepts the module: "
